@@ -852,16 +852,27 @@ func ComputeLocks(p *Prog) *LockInfo {
 							if mc == nil {
 								continue
 							}
+							// a bound method value `T{f: v, …}.m`: the code that runs is the method; locks named after v in
+							// this frame are named after recv.f inside the method
+							method, recvLit := boundTarget(a)
 							if i < len(g.Params) && onlyCalled(g.Params[i]) {
 								for _, r := range *g.Params[i].Referrers() {
 									if rc, ok := r.(*ssa.Call); ok {
 										// locks at the inner call, translated back to caller names
 										inner := li.At[rc]
-										sites[mc] = append(sites[mc], untranslate(inner, &x.Call, g))
+										cls := untranslate(inner, &x.Call, g)
+										if method != nil {
+											sites[method] = append(sites[method], throughReceiver(cls, method, recvLit))
+											continue
+										}
+										sites[mc] = append(sites[mc], cls)
 									}
 								}
 							} else {
 								escapes[mc] = true
+								if method != nil {
+									escapes[method] = true
+								}
 							}
 						}
 					} else {
@@ -936,6 +947,59 @@ func untranslate(ls Lockset, call *ssa.CallCommon, callee *ssa.Function) Lockset
 			if p == prm.Name() || strings.HasPrefix(p, prm.Name()+".") {
 				out[Path(call.Args[i])+p[len(prm.Name()):]+":"+mode] = true
 				break
+			}
+		}
+	}
+	return out
+}
+
+// boundTarget: for a bound method value (MakeClosure of a $bound wrapper) the method that runs and the bound receiver.
+func boundTarget(v ssa.Value) (*ssa.Function, ssa.Value) {
+	mc, ok := Resolve(v).(*ssa.MakeClosure)
+	if !ok || len(mc.Bindings) != 1 {
+		return nil, nil
+	}
+	fn := mc.Fn.(*ssa.Function)
+	if !strings.HasSuffix(fn.Name(), "$bound") && !strings.Contains(fn.Synthetic, "bound method") {
+		return nil, nil
+	}
+	var target *ssa.Function
+	Instrs(fn, func(ins ssa.Instruction) {
+		if call, isC := ins.(*ssa.Call); isC {
+			if g := Callee(&call.Call); g != nil {
+				target = g
+			}
+		}
+	})
+	return target, mc.Bindings[0]
+}
+
+// throughReceiver renames the locks of ls (named in the frame that built the receiver) to the names they
+// have inside the method: a lock rooted at the value stored into field f of the receiver literal becomes
+// <receiver parameter>.f….
+func throughReceiver(ls Lockset, method *ssa.Function, recv ssa.Value) Lockset {
+	out := Lockset{}
+	if len(method.Params) == 0 {
+		return out
+	}
+	t := method.Params[0].Type()
+	if pt, ok := t.Underlying().(*types.Pointer); ok {
+		t = pt.Elem()
+	}
+	st, ok := t.Underlying().(*types.Struct)
+	if !ok {
+		return out
+	}
+	for k := range ls {
+		pth, mode, _ := strings.Cut(k, ":")
+		for i := 0; i < st.NumFields(); i++ {
+			fv := literalField(recv, i)
+			if fv == nil {
+				continue
+			}
+			q := Path(fv)
+			if pth == q || strings.HasPrefix(pth, q+".") {
+				out[method.Params[0].Name()+"."+st.Field(i).Name()+pth[len(q):]+":"+mode] = true
 			}
 		}
 	}
